@@ -6,6 +6,39 @@ var realAll = []string{"every package of /repo (scratch copy, mechanically instr
 
 func init() {
 	register(&propCfg{
+		id: "C03", worker: "c03", goCmd: "go",
+		instrument: []string{"-maps", "-clock", "-tick"},
+		tiers: map[string]tierCfg{
+			"quick":    {cases: 20_000, timeout: 15 * time.Minute},
+			"thorough": {cases: 3_000_000, timeout: 90 * time.Minute},
+		},
+		level: "exploration",
+		rule: "70% of the cases: header.Write of a tape-generated table map (1..70 tables, known and random printable tags, lengths 0..5000 biased to 0..9 and 4k+-1, nil values, with/without a head table of 54..60 bytes, three scaler types) under four map-order assignments; 30%: a tape-generated font (TrueType / CFF / CID-keyed CFF, optionally with GSUB/GPOS/GDEF) written with Write, WriteTrueTypePDF (+extra tables) or WriteOpenTypeCFFPDF under three map-order assignments. After every acknowledged write the file is checked by an independent container walk (fsck), read back with header.Read/ReadTableBytes and compared across map orders; complete fonts are also handed to golang.org/x/image/font/sfnt (incidental). Non-trivial = every case; distinct = distinct hash of (scaler, tag/length list) or (operation, font digest).",
+		real:  realAll,
+		stubs: []string{"io.Writer (simio.Writer, fault-free here)", "map iteration order at every repository site (simhook.Range / Permute)", "golang.org/x/image/font/sfnt is real code used as an independent judge"},
+		assume: []string{
+			"maps without any non-nil table are not generated (header.Read rejects an empty container by design)",
+			"head tables shorter than 54 bytes are not generated",
+			"whether the last table is padded to a multiple of four is not judged",
+		},
+	})
+	register(&propCfg{
+		id: "C18", worker: "c18", goCmd: "go", planned: true,
+		instrument: []string{"-maps", "-clock", "-tick"},
+		tiers: map[string]tierCfg{
+			"quick":    {timeout: 15 * time.Minute},
+			"thorough": {timeout: 90 * time.Minute},
+		},
+		level: "fault_enumeration",
+		rule: "case = (corpus file, fault family, operation/reader kind, fault offset k, partial-acceptance mode). Corpus: Go fonts (TrueType), two CFF conversions (simple, CID-keyed), 36 tape-generated fonts of all three outline kinds, half of them with GSUB/GPOS/GDEF. Families: writer fails at k (Write, WriteTrueTypePDF, WriteOpenTypeCFFPDF, cff.Font.Write, header.Write; five acceptance modes at call boundaries), file cut at k, reader fails for accesses touching offsets >= k, reader fails in a bounded window [k,k+w) (ReaderAt with both EOF conventions, streaming Reader with tape-chosen short reads). thorough: every k in 0..len for files <= 64 KiB, otherwise call/table boundaries +-2 and 4096 sampled offsets; quick: boundaries +-1 and 64 sampled offsets per (file, operation). Every case is distinct by construction; non-trivial = all of them (each injects exactly one fault plan, k = len is the fault-free control).",
+		real:  realAll,
+		stubs: []string{"io.Writer (simio.Writer: fails at byte k, five acceptance modes incl. transient failure)", "io.ReaderAt (simio.ReaderAt: failing region, both legal EOF conventions)", "io.Reader (simio.Reader: short reads, zero-length reads, EOF with data, failure at k)"},
+		assume: []string{
+			"a reader that delivers (n == len, io.EOF) for a read ending exactly at the end of the data may be refused by header.Read (DESIGN.md note N1); such refusals are counted, not judged",
+			"in the bounded-window (bad sector) family success is accepted if the returned font equals the fault-free one",
+		},
+	})
+	register(&propCfg{
 		id: "C17", worker: "c17", goCmd: "go",
 		instrument: []string{"-maps", "-clock", "-tick"},
 		tiers: map[string]tierCfg{
